@@ -247,7 +247,8 @@ SPECS = {
 SPEC_C10_MACHINE = MachineSpec("C10", T.p_C10, P_PLANS.with_(w_ops=dict(plan_append=14, plan_appendWith=5, plan_removeAt=6, plan_clear=2, exit_enter=3, succeed=6, loadfrom=3, second_instance=2),
                                                                w_act=dict(plan_append=8, plan_removeAt=3, plan_clear=2, succeed=6)),
                                cfgs_plans, lambda t: 60 if t == "quick" else 300,
-                               lambda ls, c: has(ls, lambda l: (l.kind == "did" and l.act[0] == "plan.append" and l.res == "full") or (l.kind == "api" and l.op == "plan.removeAt")))
+                               lambda ls, c: has(ls, lambda l: (l.kind == "did" and l.act[0] == "plan.append" and l.res == "full") or (l.kind == "api" and l.op == "plan.removeAt")),
+                               extra=lambda tier: plan_enumeration(tier))
 
 # ---------------------------------------------------------------------------------------------- unit-level
 from . import unitcheck
@@ -264,6 +265,10 @@ def check_C13(run):
 def check_C20(run):
     rng = run.rng; q = run.tier == "quick"
     lines = units.gen_bitarray(rng, 300 if q else 3000) + units.gen_arrays(rng, 300 if q else 3000)
+    # small-scope exhaustive: every sequence of 2 (quick) / 3-4 (thorough) operations over the boundary alphabet, for capacities around a byte boundary
+    for cap in ((8, 9) if q else (1, 7, 8, 9, 16, 17)):
+        lines += units.enum_bitarray(cap, 2 if q else 3)
+    if not q: lines += units.enum_bitarray(9, 4)
     unitcheck.run(run, lines)
     return dict(rule="operation lists for BitArrayT, StaticArrayT<int>, DynamicArrayT<int> over 25 capacities (1..255; indices aimed at multiples of 8, "
                      "set-all then clear-each for every capacity, and-assign with sparse masks, fill to capacity 255); distinct non-trivial = distinct model "
@@ -357,9 +362,27 @@ def check_C14(run):
                      "x head x variant); for every k < N: immediateChangeTo(k), update(), react(), query() - all twelve callback kinds; an evaluation is one (N, k) probe; distinct non-trivial = distinct (N, head, probe line)",
                 explanation="", exhaustive=(tier != "quick"))
 
+def plan_enumeration(tier):
+    """every history of the given length over plan edits on a small machine: append two different tasks, remove at positions 0..2, clear,
+    succeed + update (consumption by firing), exit + enter - the plan seen after every step"""
+    L = 3 if tier == "quick" else 5
+    out = []
+    for cap in ((2,) if tier == "quick" else (1, 2, 3)):
+        c = cfgmod.make(n=2, head=1, manual=1, limit=2, cap=cap, plans=1, history=0, log="off")
+        pre = [cfgmod.cfg_line(c), "op construct 0 0 00", "op enter 0"]
+        alpha = [["op plan.append 0 0 1"], ["op plan.append 0 1 0"], ["op plan.removeAt 0 0"], ["op plan.removeAt 0 1"], ["op plan.removeAt 0 2"], ["op plan.clear 0"],
+                 ["op succeed 0 0", "op succeed 0 1", "op update 0"], ["op exit 0", "op enter 0"]]
+        for seq in itertools.product(range(len(alpha)), repeat=L):
+            lines = list(pre)
+            for k in seq: lines += alpha[k]
+            out.append((c, "\n".join(lines) + "\n", "enumerated"))
+    return out
+
 def check_C10(run):
     rng = run.rng; q = run.tier == "quick"
     lines = units.gen_tasklist(rng, 400 if q else 4000)
+    # small-scope exhaustive: every in-contract emplace/remove/clear sequence of length 5 (quick, capacity 2) / up to 7 (thorough, capacities 1..3)
+    lines += units.enum_tasklist(2, 5) if q else (units.enum_tasklist(1, 6) + units.enum_tasklist(2, 7) + units.enum_tasklist(3, 6))
     unitcheck.run(run, lines)
     engine.run_machine(run, SPEC_C10_MACHINE)
     return dict(rule="(a) TaskListT<void, C> operation lists (emplace/remove/clear; styles: mixed, fill-drain in random order, full-cycle) for C in {1,2,3,4,5,8,255}, "
